@@ -59,3 +59,24 @@ def encModePage0 (pv : Vals) (body : List Nat) : List Nat := modePage0Header.enc
 def encModeSubPage (pv : Vals) (body : List Nat) : List Nat := modeSubPageHeader.enc pv ++ body
 
 end Std
+
+namespace Std
+
+/-! ## READ ELEMENT STATUS (SMC-3 6.11) -/
+
+/-- an element descriptor: values of the 12 fixed bytes, primary volume tag, alternate volume tag,
+    the remaining bytes (reserved / identifier fields) up to ELEMENT DESCRIPTOR LENGTH -/
+abbrev EDesc := Vals × List Nat × List Nat × List Nat
+
+def encElementDescriptor (e : EDesc) : List Nat := elementDescriptor.enc e.1 ++ (e.2.1 ++ (e.2.2.1 ++ e.2.2.2))
+
+/-- an element status page: header values and its element descriptors -/
+abbrev EPage := Vals × List EDesc
+
+def encElementPage (p : EPage) : List Nat := elementStatusPage.enc p.1 ++ (p.2.map encElementDescriptor).flatten
+
+/-- element status data: 8-byte header (BYTE COUNT OF REPORT AVAILABLE at bytes 5–7), then the pages -/
+def encReadElementStatus (hv : Vals) (ps : List EPage) : List Nat :=
+  elementStatusHeader.enc hv ++ (ps.map encElementPage).flatten
+
+end Std
